@@ -10,6 +10,7 @@ Subset / order clause: each method is asked about proper subsets and about unsor
 exactly those modes in that order or raise ValueError.
 """
 import itertools
+import math
 
 import numpy as np
 
@@ -50,7 +51,7 @@ def gen_state(rng):
     for m in range(n):
         S, d = rg.gate_sd("Sgate", [rng.uniform(-0.25, 0.25) * (rng.random() < 0.85), rng.uniform(0, 6.28)])
         g.apply_sd(S, d, [m])
-    if n > 1 and rng.random() < 0.9:
+    if n > 1 and rng.random() < 0.8:
         g.apply_sd(rg.interferometer_S(gen.haar(rng, n)), np.zeros(2 * n), list(range(n)))
         if rng.random() < 0.5:
             a, b = rng.choice(n, 2, replace=False)
@@ -392,6 +393,74 @@ def _check(case, rep, env, g, states, D, hbar):
             rep.observe("not-implemented:poly_quad_expectation:" + lab)
         except Exception as e:
             V(lab, "poly_quad_expectation", "exception:" + type(e).__name__, "raised %s: %s" % (type(e).__name__, str(e)[:80]))
+        # ---- displacement / squeezing / purity / marginal distributions / trace / overlap with a given vector ---------------
+        m = int(rng.integers(n))
+        mu1, V1 = g.reduced([m])
+        order = [int(x) for x in rng.permutation(n)[: int(rng.integers(1, n + 1))]]
+        if lab in ("gaussian", "bosonic"):
+            rep.monitor("displacement")
+            want = np.array([(g.mu[k] + 1j * g.mu[n + k]) / 2 for k in order])
+            try:
+                got = np.asarray(st.displacement(list(order)), dtype=complex)
+                if not close(got, want, tol):
+                    asc = np.array([(g.mu[k] + 1j * g.mu[n + k]) / 2 for k in sorted(order)])
+                    V(lab, "displacement", "value:ordered-modes" if close(got, asc, tol) else "value",
+                      "displacement(%s) = %s, the state's displacements of these modes in this order are %s" % (
+                          order, np.round(got, 5).tolist(), np.round(want, 5).tolist()))
+            except ValueError as e:
+                rep.observe("displacement:ValueError:" + lab)
+        if lab == "gaussian" and abs(np.linalg.det(V1) - 1) < 1e-9:
+            # a pure one-mode Gaussian state is a displaced squeezed state: the reported (r, phi) must reproduce its covariance
+            rep.monitor("squeezing:reproduces-covariance")
+            r_, ph_ = st.squeezing([m])[0]
+            S_, _d = rg.gate_sd("Sgate", [float(r_), float(ph_)])
+            dev_ = float(np.max(np.abs(S_ @ S_.T - V1)))
+            rep.seen("squeezing-quadrant", "cos(phi)%s0" % ("<" if V1[0, 0] > V1[1, 1] + 1e-9 else ">="))
+            if dev_ > 1e-6:
+                V(lab, "squeezing", "not-the-covariance", "squeezing([%d]) = (%.5f, %.5f); a squeezed state with these parameters has covariance "
+                  "%s, the state's is %s" % (m, r_, ph_, np.round(S_ @ S_.T, 4).tolist(), np.round(V1, 4).tolist()))
+            if bool(st.is_squeezed(m)) != bool(np.any(np.abs(V1 - np.eye(2)) > 1e-6)):
+                V(lab, "is_squeezed", "value", "is_squeezed(%d) = %s for covariance %s" % (m, st.is_squeezed(m), np.round(V1, 6).tolist()))
+        if lab == "bosonic":
+            rep.monitor("purity")
+            pur = complex(st.purity())
+            if not close(pur, 1.0 / np.sqrt(np.linalg.det(g.V)), 1e-6):
+                V(lab, "purity", "value", "purity() = %s, 1/sqrt(det V) = %.8f" % (np.round(pur, 8), 1.0 / np.sqrt(np.linalg.det(g.V))))
+            rep.monitor("marginal")
+            phi_ = float(rng.uniform(0, 6.28))
+            cph, sph = np.cos(phi_), np.sin(phi_)
+            mean_ = cph * mu1[0] + sph * mu1[1]
+            var_ = cph ** 2 * V1[0, 0] + sph ** 2 * V1[1, 1] + 2 * cph * sph * V1[0, 1]
+            xs_ = f * (mean_ + np.sqrt(var_) * np.linspace(-3, 3, 25))
+            ref_ = np.exp(-0.5 * (xs_ / f - mean_) ** 2 / var_) / np.sqrt(2 * np.pi * var_) / f
+            got_ = np.asarray(st.marginal(m, xs_, phi_), dtype=complex)
+            if not close(got_, ref_, 1e-6):
+                V(lab, "marginal", "value", "marginal(mode %d, phi=%.3f) differs from the Gaussian density of x_phi by %.3e" % (
+                    m, phi_, float(np.max(np.abs(got_ - ref_)))))
+        if not (lab.startswith("fock") and n == 3):
+            rep.monitor("x/p_quad_values")
+            grid = f * np.linspace(-7, 7, 113)
+            pts = grid[::8]
+            for which, k_ in (("x", 0), ("p", 1)):
+                ref_ = np.exp(-0.5 * (grid / f - mu1[k_]) ** 2 / V1[k_, k_]) / np.sqrt(2 * np.pi * V1[k_, k_]) / f
+                got_ = np.real(np.asarray(getattr(st, which + "_quad_values")(m, grid, grid)))
+                if got_.shape != ref_.shape or float(np.max(np.abs(got_ - ref_))) > (5e-4 + 5 * tol) * float(np.max(ref_)):
+                    V(lab, which + "_quad_values", "value", "%s_quad_values(mode %d) differs from the %s marginal of the state by %.3e (peak %.3e)" % (
+                        which, m, which, float(np.max(np.abs(got_ - ref_))) if got_.shape == ref_.shape else np.inf, float(np.max(ref_))))
+                    break
+        if lab.startswith("fock"):
+            rep.monitor("trace")
+            tr_ref = float(P[tuple(slice(0, D) for _ in range(n))].sum())
+            if abs(float(st.trace()) - tr_ref) > tol:
+                V(lab, "trace", "value", "trace() = %.8f, the reference state has %.8f inside the cutoff" % (st.trace(), tr_ref))
+            rep.monitor("fidelity(vector)")
+            al_ = 0.2 + 0.1j
+            vec_ = np.exp(-abs(al_) ** 2 / 2) * np.array([al_ ** k / np.sqrt(float(math.factorial(k))) for k in range(D)])
+            rho_m = density_matrix(mu1, V1, cutoff=D, hbar=2)
+            want_ = float(np.real(np.conj(vec_) @ rho_m @ vec_))
+            got_ = float(st.fidelity(vec_, m))
+            if abs(got_ - want_) > tol:
+                V(lab, "fidelity", "value", "fidelity(coherent vector, mode %d) = %.8f, <v|rho_m|v> of the reference is %.8f" % (m, got_, want_))
         # ---- unsorted mode lists: raise or honour the order ---------------------------------------------------------------
         if n >= 2:
             a, b = (int(x) for x in rng.choice(n, 2, replace=False))
